@@ -615,7 +615,6 @@ class RxPipeline(Elaboratable):
         m.d.comb += [
             bitstuff.i_valid.eq(nrzi.o_valid),
             bitstuff.i_data.eq(nrzi.o_data),
-            self.o_receive_error.eq(bitstuff.o_error)
         ]
 
         #
@@ -629,6 +628,16 @@ class RxPipeline(Elaboratable):
             shifter.i_data.eq(bitstuff.o_data),
             shifter.i_valid.eq(~bitstuff.o_stall & past_o_pkt_active),
         ]
+
+        # A bit-stuffing error is flagged for a single 48 MHz cycle, which the 12 MHz UTMI side only
+        # sees in one of four phases: hold it until the next packet starts. Seven ones outside of a
+        # packet (bus idle) are not receive errors.
+        receive_error = Signal()
+        with m.If(detect.o_pkt_start):
+            m.d.usb_io += receive_error.eq(0)
+        with m.Elif(bitstuff.o_error & past_o_pkt_active):
+            m.d.usb_io += receive_error.eq(1)
+        m.d.comb += self.o_receive_error.eq(receive_error)
 
         #
         # Clock domain crossing.
